@@ -52,7 +52,8 @@ PROPS = {
         contract_files=['contracts/linked.py'],
         level='proof',
         trusted_base=COMMON_TRUSTED + ['descriptor access to limit parameters (getattr yields the current parameter value)'],
-        uncovered=['struct/member cross-updates (extparams.StructParam), float-enum pairs, control hand-over (mixins.HasControlledBy): bounded / not covered',
+        uncovered=['struct/member cross-updates (extparams.StructParam) and the float parameter bound to an enum index (extparams.FloatEnumParam): bounded stand-ins over histories',
+                   'control hand-over between modules driving one output (mixins.HasControlledBy / HasOutputModule): not covered',
                    'installation of check_<p> hooks in __init_subclass__: bounded stand-in over 6 class layouts'],
         bounded=[CB('limit-contracts', 'contracts/linked.py', 'gens_linked')],
     ),
@@ -60,8 +61,8 @@ PROPS = {
         contract_files=['contracts/persistent.py'],
         level='proof',
         trusted_base=COMMON_TRUSTED + ['file system abstracted by a ghost operation log; each operation happens entirely or raises OSError; os.rename atomic'],
-        uncovered=['loading (loadPersistentData: per-entry tolerance), start-up precedence cfg > file > default, exact round trip of values:'
-                   ' bounded stand-in / not covered'],
+        uncovered=['loading (loadPersistentData: per-entry tolerance, deep nesting), start-up precedence cfg > file > default, save -> load round trip of'
+                   ' every datatype: bounded stand-ins only'],
         bounded=[CB('persistent-contracts', 'contracts/persistent.py', 'gens_persistent')],
     ),
     'C14': dict(
@@ -117,8 +118,8 @@ PROPS = {
         contract_files=['contracts/client.py'],
         level='proof',
         trusted_base=COMMON_TRUSTED + ['ProxyClient.callback abstract in the proof of updateValue (records the call, does not raise); CacheItem abstract'],
-        uncovered=['the receive loop (reader thread), reconnects, description changes, write / read / command paths: end-to-end mirroring over a'
-                   ' connection is a whole-history property over two processes / threads - no sequential contract',
+        uncovered=['the receive loop (reader thread): bounded stand-in on scripted connections only; reconnects, description changes, the write / read /'
+                   ' command paths through the client over a real connection: not covered (whole-history property over two threads / processes)',
                    'ProxyClient.callback itself: bounded stand-in only (containers are modelled by value: iteration over a list that is'
                    ' mutated meanwhile is indistinguishable from iteration over a snapshot)'],
         bounded=[CB('client-contracts', 'contracts/client.py', 'gens_client')],
@@ -127,8 +128,9 @@ PROPS = {
         contract_files=['contracts/comm.py'],
         level='proof',
         trusted_base=COMMON_TRUSTED + ['recv() contract (bytes or an exception); JOIN defined through recv()'],
-        uncovered=['atomic request/reply pairing under the communicate lock, discarding stale data, reconnection (StringIO / BytesIO.communicate,'
-                   ' IOBase.check_connection): concurrency and time - no sequential contract in reach'],
+        uncovered=['request/reply pairing and discarding stale data (StringIO.communicate), reconnection (IOBase.check_connection): bounded stand-ins in'
+                   ' virtual time only; BytesIO.communicate / multicomm delays: not covered',
+                   'mutual exclusion of callers by the communicate lock: concurrency - no sequential contract in reach'],
         bounded=[CB('comm-contracts', 'contracts/comm.py', 'gens_comm', budget=120)],
     ),
     'C06': dict(
